@@ -106,6 +106,8 @@ package structuredheader
 //@   ensures[number-grammar] err == nil ==> exists m int :: m >= 1 && m <= len(old(p.input)) && (old(p.input)[0] == '-' || digit(old(p.input)[0])) && (forall i int :: 1 <= i && i < m ==> digit(old(p.input)[i])) && rest(p.input, old(p.input), m) && (len(p.input) > 0 ==> !digit(p.input[0]))
 //@   ensures[progress] err == nil ==> len(p.input) < len(old(p.input))
 //@   ensures[rejects-non-numbers] len(old(p.input)) == 0 || (old(p.input)[0] != '-' && !digit(old(p.input)[0])) ==> err != nil
+//@   ensures[decimal-value-of-the-consumed-digits] err == nil ==> parseIntOK(old(p.input)[:len(old(p.input)) - len(p.input)]) && n == parseIntVal(old(p.input)[:len(old(p.input)) - len(p.input)])
+//@   ensures[refuses-only-what-is-not-a-decimal-int64] err != nil && len(old(p.input)) > 0 && (old(p.input)[0] == '-' || digit(old(p.input)[0])) ==> !parseIntOK(old(p.input)[:len(old(p.input)) - len(p.input)])
 //@   assigns p.input
 //@   loop 0:
 //@     invariant 1 <= i && i <= len(p.input) && p.input == old(p.input)
